@@ -1,10 +1,17 @@
 (* C07 -- expand fails only with its two parse errors, position inside the input; never an
    internal error.  Markup side.  Property theorems only; each closed by [exact] of a lemma of
-   proofs/Safe*.v.  (Stylesheet side: props/C07Css.v, another component.) *)
-From Emmet Require Import lib.Base model.MarkupTokenizer model.MarkupParser
-     proofs.MarkupTokenizerProofs proofs.SafeTokenizer proofs.SafeParser proofs.SafeExpand.
+   proofs/Safe*.v.  (Stylesheet side: props/C07Css.v, another component.)
 
-(* tokenizer, for ALL strings: tokens that tile the input, or the scanner error inside the input *)
+   The model result type is  res A = Ok a | ParseErr kind pos | Internal kind | OutOfFuel  (lib/Base.v):
+   every Python operation that can raise is an explicit Internal in the models, every fuel-driven
+   loop has OutOfFuel.  [safe_outcome len r] is the statement of C07 on such a result:
+     Ok _ | ParseErr EK_Token None | ParseErr (EK_Scanner|EK_Token) (Some p) with 0 <= p <= len. *)
+From Emmet Require Import lib.Base model.MarkupTokenizer model.MarkupParser model.MarkupConvert model.MarkupResolve
+     model.MarkupExpand gen.GenMarkupSnippets
+     proofs.MarkupTokenizerProofs proofs.SafeTokenizer proofs.SafeParser proofs.SafeConvert proofs.SafeResolve
+     proofs.SafeExpand.
+
+(* ---- stage 1: tokenizer, for ALL strings: tokens that tile the input, or the scanner error inside the input *)
 Theorem C07_tokenize_safe : forall s,
   match tokenize s with
   | TOk l => tiles l 0 (length s)
@@ -13,7 +20,7 @@ Theorem C07_tokenize_safe : forall s,
 Proof. exact tokenize_safe. Qed.
 Print Assumptions C07_tokenize_safe.
 
-(* parser, for ALL token lists (not only tokenizer outputs): a tree, or the token error whose
+(* ---- stage 2: parser, for ALL token lists (not only tokenizer outputs): a tree, or the token error whose
    position (when present) is the start of one of the given tokens *)
 Theorem C07_parser_safe : forall jsx toks,
   match parse jsx toks with
@@ -38,7 +45,64 @@ Theorem C07_tokenize_parse_safe : forall jsx s,
 Proof. exact tokenize_parse_safe. Qed.
 Print Assumptions C07_tokenize_parse_safe.
 
-(* non-vacuity: a [ b = and a double quote: tokenizes, and the parser reports the unclosed quote at offset 4 *)
+(* ---- stage 3: convert, for ALL token trees whose name/value tokens have a string conversion
+   ([tnode_ok]: no Repeater token, no operator outside the table), ALL wrap texts (none, str, list),
+   ALL variables, ALL repeat limits: Ok -- never Internal (get_text IndexError, stringify TypeError /
+   'Unknown token'), never a parse error, never OutOfFuel.
+   [tnode_ok] is necessary (SafeConvert.convert_needs_tnode_ok: a Repeater token inside a text value
+   is the bare Exception the code raises). *)
+Theorem C07_convert_safe : forall env max_repeat root,
+  forallb tnode_ok root = true -> exists r, convert env max_repeat root = Ok r.
+Proof. exact convert_safe. Qed.
+Print Assumptions C07_convert_safe.
+
+(* ---- stage 4: snippet resolution, for ALL trees and ALL configurations whose snippet values are
+   well-formed abbreviations: the fuel supplied by markup_parse is never exhausted, no Internal,
+   no parse error *)
+Theorem C07_resolve_safe : forall cfg tree, wf_cfg cfg ->
+  exists r, walk_resolve (S (length (mc_snippets cfg))) cfg [] tree = Ok r.
+Proof. exact resolve_safe. Qed.
+Print Assumptions C07_resolve_safe.
+
+(* wf_cfg for the built-in tables: COMPLETE sweep (vm_compute over every snippet value of the tables
+   regenerated from emmet/snippets on this run) *)
+Theorem C07_builtin_tables_wf :
+  table_good markup_snippets = true /\ table_good (xsl_snippets ++ markup_snippets) = true
+  /\ table_good (pug_snippets ++ markup_snippets) = true.
+Proof. exact builtin_tables_wf. Qed.
+Print Assumptions C07_builtin_tables_wf.
+
+(* user snippets in front of a well-formed table (merged_data: user entries override) keep it well-formed
+   exactly when they are well-formed themselves *)
+Theorem C07_user_table_wf : forall user base,
+  table_good user = true -> table_good base = true -> table_good (user ++ base) = true.
+Proof. exact table_good_app. Qed.
+Print Assumptions C07_user_table_wf.
+
+(* ---- stage 5: transform pass and formatters: total by construction (`transform_list`,
+   `stringify_markup` return plain values, not `res`; no fuel).  Nothing to prove. *)
+
+(* ---- composition.  FULL STATEMENT (DESIGN §5 C07):
+       expand_safe : forall x s, wf_cfg (xc_m x) -> safe_outcome (length s) (expand_markup_str x s).
+   Proved below with ONE extra hypothesis, [abbr_wf jsx s]: "no tree the parser builds from the tokens of [s]
+   carries a Repeater token inside a name or value".  It links the tokenizer's context counters to the regions
+   the parser turns into values (the tokenizer emits Repeater only outside brackets/quotes; the parser makes
+   values only from bracketed/quoted regions) and is not proved for all strings yet; it is a decidable
+   per-input condition (SafeResolve.abbr_good) and part of what the correspondence run checks on every
+   generated input (an Internal model outcome is a disagreement). *)
+Theorem C07_expand_safe_partial : forall x s,
+  wf_cfg (xc_m x) -> abbr_wf (mc_jsx (xc_m x)) s ->
+  safe_outcome (length s) (expand_markup_str x s).
+Proof. exact expand_safe_under_wf. Qed.
+Print Assumptions C07_expand_safe_partial.
+
+(* non-vacuity: a [ b = and a double quote: tokenizes, and the parser reports the unclosed quote at offset 4;
+   and ul>li*2 expands to a value under the built-in table *)
 Example C07_parse_error_nonvacuous :
   exists toks, tokenize [97;91;98;61;34]%N = TOk toks /\ parse false toks = PErr (Some 4).
 Proof. eexists. split; vm_compute; reflexivity. Qed.
+
+Example C07_markup_parse_nonvacuous :
+  let cfg := mkMConfig [104;116;109;108]%N markup_snippets [] WNone None None false None [] false false in
+  wf_cfg cfg /\ exists r, markup_parse cfg [117;108;62;108;105;42;50]%N = Ok r /\ length r = 1.
+Proof. split; [exact markup_snippets_good|]. eexists. split; vm_compute; reflexivity. Qed.
